@@ -45,13 +45,56 @@ var cmpTypes = []proto.Message{
 
 func drawUnknown(t *rapid.T, label string) []byte {
 	n := rapid.IntRange(0, 3).Draw(t, label+".n")
+	if rapid.IntRange(0, 3).Draw(t, label+".many") == 0 {
+		// a repeated field of a newer schema seen through an older one: dozens of unknown fields, numbers repeating
+		n = rapid.IntRange(4, 40).Draw(t, label+".nmany")
+	}
 	var b []byte
 	for i := 0; i < n; i++ {
 		num := protowire.Number(rapid.SampledFrom([]int{1000, 1001, 1002}).Draw(t, label+".num"))
-		b = protowire.AppendTag(b, num, protowire.VarintType)
-		b = protowire.AppendVarint(b, uint64(rapid.IntRange(0, 2).Draw(t, label+".v")))
+		switch rapid.IntRange(0, 3).Draw(t, label+".wt") {
+		case 0:
+			b = protowire.AppendTag(b, num, protowire.BytesType)
+			b = protowire.AppendBytes(b, []byte(rapid.SampledFrom([]string{"", "a", "ab"}).Draw(t, label+".bytes")))
+		case 1:
+			b = protowire.AppendTag(b, num, protowire.Fixed32Type)
+			b = protowire.AppendFixed32(b, uint32(rapid.IntRange(0, 2).Draw(t, label+".f32")))
+		default:
+			b = protowire.AppendTag(b, num, protowire.VarintType)
+			b = protowire.AppendVarint(b, uint64(rapid.IntRange(0, 2).Draw(t, label+".v")))
+		}
 	}
 	return b
+}
+
+// reinterleaveUnknown changes how fields of different numbers are interleaved and keeps the order of the fields of each
+// number: protobuf equality does not see the difference.
+func reinterleaveUnknown(t *rapid.T, label string, b []byte) []byte {
+	groups := map[protowire.Number][][]byte{}
+	var nums []protowire.Number
+	total := 0
+	for len(b) > 0 {
+		num, _, n := protowire.ConsumeField(b)
+		if _, ok := groups[num]; !ok {
+			nums = append(nums, num)
+		}
+		groups[num] = append(groups[num], b[:n])
+		b = b[n:]
+		total++
+	}
+	var out []byte
+	for i := 0; i < total; i++ {
+		var live []protowire.Number
+		for _, n := range nums {
+			if len(groups[n]) > 0 {
+				live = append(live, n)
+			}
+		}
+		pick := live[rapid.IntRange(0, len(live)-1).Draw(t, label)]
+		out = append(out, groups[pick][0]...)
+		groups[pick] = groups[pick][1:]
+	}
+	return out
 }
 
 // permuteUnknown reorders whole fields.
@@ -101,8 +144,13 @@ func drawPair(t *rapid.T) (x, y proto.Message, desc string) {
 	case 4, 5:
 		u := drawUnknown(t, "unk")
 		x.ProtoReflect().SetUnknown(u)
-		y.ProtoReflect().SetUnknown(permuteUnknown(t, "unkperm", u))
-		desc += " unknown fields (permuted)"
+		if rapid.Bool().Draw(t, "reinterleave") {
+			y.ProtoReflect().SetUnknown(reinterleaveUnknown(t, "unkmix", u))
+			desc += " unknown fields (same per number, interleaved differently)"
+		} else {
+			y.ProtoReflect().SetUnknown(permuteUnknown(t, "unkperm", u))
+			desc += " unknown fields (permuted)"
+		}
 	case 6:
 		x.ProtoReflect().SetUnknown(drawUnknown(t, "unkx"))
 		y.ProtoReflect().SetUnknown(drawUnknown(t, "unky"))
